@@ -834,11 +834,11 @@ pub fn generate(prop: &str, seed: u64, idx: u64, tier: Tier) -> Plan {
 pub fn budget(prop: &str, tier: Tier) -> u64 {
     let ns = c11_singles().len() as u64;
     match (prop, tier) {
-        ("C11", Tier::Quick) => ns + 1500 + 1500,
-        ("C11", Tier::Thorough) => ns + ns * ns + 60_000,
-        ("C02", Tier::Quick) => 440 + 400,
-        ("C02", Tier::Thorough) => 440 + 20_000,
-        ("C03", Tier::Quick) => 1500,
-        (_, _) => 40_000,
+        ("C11", Tier::Quick) => ns + 1500 + 24_000,
+        ("C11", Tier::Thorough) => ns + ns * ns + 600_000,
+        ("C02", Tier::Quick) => 440 + 16_000,
+        ("C02", Tier::Thorough) => 440 + 400_000,
+        ("C03", Tier::Quick) => 16_000,
+        (_, _) => 400_000,
     }
 }
